@@ -1,14 +1,10 @@
-//! hx_c27: repetition/definition levels (C27).
-mod explore;
-mod stack;
-mod unit;
+//! hx_c34: row id sequences and the row id index (C34).
+mod probe;
 
 fn main() {
     let (sub, args) = hxlib::util::Args::parse();
     let code = match sub.as_str() {
-        "c27" => unit::run(&args),
-        "explore" => explore::run(&args),
-        "e2e" => explore::e2e(),
+        "probe" => probe::run(&args),
         _ => {
             eprintln!("unknown subcommand {sub}");
             2
